@@ -58,9 +58,64 @@ def integ(d, img):
 
 
 def box(img):
-    o = np.asarray(img.origin, dtype=float)
-    c = np.asarray(img.opposite_corner, dtype=float)
-    return np.minimum(o, c), np.maximum(o, c)
+    """axis-aligned physical extent; NaN if the image has become unusable (a corrupted source must not crash the check)"""
+    try:
+        o = np.asarray(img.origin, dtype=float)
+        c = np.asarray(img.opposite_corner, dtype=float)
+        return np.minimum(o, c), np.maximum(o, c)
+    except Exception:  # noqa: BLE001
+        n = len(getattr(img, "origin", [0, 0]))
+        return np.full(n, np.nan), np.full(n, np.nan)
+
+
+
+def snapshot(d, obj):
+    """everything the property reads from a source: data, dimensions, origin, voxel size, extents, integral"""
+    if isinstance(obj, np.ndarray):
+        return {"arr": obj.copy()}
+    i = integ(d, obj)
+    lo, hi = box(obj)
+    vs = call(lambda: [float(x) for x in obj.voxel_size])
+    return {"arr": np.array(obj.img, copy=True), "dimensions": [float(x) for x in obj.dimensions], "origin": np.array(obj.origin, dtype=float),
+            "voxel_size": repr(vs) if isinstance(vs, Raised) else vs, "box": (repr(lo.tolist()), repr(hi.tolist())),
+            "integral": repr(i) if isinstance(i, Raised) else np.asarray(i, dtype=float)}
+
+
+def same(a, b):
+    if isinstance(a, Raised) or isinstance(b, Raised):
+        return isinstance(a, Raised) and isinstance(b, Raised) and a == b
+    if isinstance(a, dict):
+        return a.keys() == b.keys() and all(same(a[k], b[k]) for k in a)
+    if isinstance(a, (tuple, list)):
+        return len(a) == len(b) and all(same(x, y) for x, y in zip(a, b))
+    if isinstance(a, np.ndarray):
+        return isinstance(b, np.ndarray) and a.shape == b.shape and a.dtype == b.dtype and np.array_equal(a, b)
+    return a == b
+
+
+def twice(ctx, d, name, sources, fn, replay):
+    """Run the operation on its source object(s); the sources (data, dimensions, origin, voxel size, extents, integral) must be
+    the same before and after the call, and a second call on the same source object(s) must return the same result."""
+    before = [snapshot(d, x) for x in sources]
+    r1 = call(fn)
+    after = [snapshot(d, x) for x in sources]
+    if not same(before, after):
+        what = [k for b, a in zip(before, after) for k in b if not same(b[k], a.get(k))]
+        ctx.fail(f"C11:{name}:source-changed-by-call", f"the source image differs after the call in {sorted(set(what))}: "
+                 f"dimensions {[b.get('dimensions') for b in before]} -> {[a.get('dimensions') for a in after]}, integral "
+                 f"{[np.asarray(b.get('integral')).tolist() for b in before]} -> {[np.asarray(a.get('integral')).tolist() for a in after]}", dict(replay, clause="source-unchanged"))
+    r2 = call(fn)
+    s1 = r1 if isinstance(r1, Raised) else snapshot(d, r1)
+    s2 = r2 if isinstance(r2, Raised) else snapshot(d, r2)
+    if not same(s1, s2):
+        ctx.fail(f"C11:{name}:repeated-call-on-same-source-differs",
+                 "first call: " + (repr(s1) if isinstance(s1, Raised) else f"dimensions {s1.get('dimensions')} integral {np.asarray(s1.get('integral')).tolist()}") +
+                 "; second call: " + (repr(s2) if isinstance(s2, Raised) else f"dimensions {s2.get('dimensions')} integral {np.asarray(s2.get('integral')).tolist()}"),
+                 dict(replay, clause="repeat"))
+    after2 = [snapshot(d, x) for x in sources]
+    if same(before, after) and not same(before, after2):
+        ctx.fail(f"C11:{name}:source-changed-by-call", "the source image differs after the second call", dict(replay, clause="source-unchanged"))
+    return r1
 
 
 def vals_close(model_line, arr, exact):
@@ -108,10 +163,13 @@ def run(ctx):
             arr = dy_array(rng, shape + trailing, dtype)
             img = image(d, arr, 2, [0.5 * shape[0], 0.25 * shape[1]], series, scalar)
             as_image = rng.random() < 0.5
-            res = call(lambda: d.Resize(shape=tgt, interpolation="inter_area", **{"resize conservative": True})(img if as_image else arr.copy()))
+            kind = "downsampling" if all(t <= s for t, s in zip(tgt, shape)) else "integer-upsampling"
+            src = img if as_image else arr.copy()
+            res = twice(ctx, d, f"Resize(conservative,{kind})", [src],
+                        lambda: d.Resize(shape=tgt, interpolation="inter_area", **{"resize conservative": True})(src),
+                        {"op": "resize", "shape": shape, "target": tgt, "values": arr.ravel().tolist(), "trailing": trailing, "dtype": dtype.__name__})
             n_resize += 1
             ctx.count(("resize", shape, tgt, trailing, str(dtype)), nontrivial=tgt != shape)
-            kind = "downsampling" if all(t <= s for t, s in zip(tgt, shape)) else "integer-upsampling"
             if isinstance(res, Raised):
                 ctx.fail(f"C11:Resize(conservative,{kind}):raises", f"{res} for {shape}->{tgt}", {"op": "resize", "shape": shape, "target": tgt, "values": arr.ravel().tolist(), "trailing": trailing})
                 continue
@@ -148,7 +206,8 @@ def run(ctx):
             for lv in range(-3, 4):
                 n_ref += 1
                 ctx.count(("refine", shape, lv, trailing), nontrivial=lv != 0)
-                out = call(d.uniform_refinement, img, lv)
+                out = twice(ctx, d, "uniform_refinement", [img], lambda: d.uniform_refinement(img, lv),
+                            {"op": "refine", "shape": shape, "level": lv, "values": arr.ravel().tolist(), "trailing": trailing})
                 # does an odd extent occur along a coarsened axis (at any intermediate level)?
                 odd = False
                 cur = list(shape)
@@ -171,7 +230,7 @@ def run(ctx):
                 if not np.allclose(out.dimensions, img.dimensions, rtol=0, atol=0):
                     ctx.fail("C11:uniform_refinement:dimensions-changed", f"{img.dimensions} -> {out.dimensions}", replay)
                 if lv > 0:
-                    back = call(d.uniform_refinement, out, -lv)
+                    back = twice(ctx, d, "uniform_refinement", [out], lambda: d.uniform_refinement(out, -lv), dict(replay, second_level=-lv))
                     if isinstance(back, Raised) or back.img.shape != img.img.shape or not np.array_equal(back.img, img.img):
                         ctx.fail("C11:uniform_refinement:refine-then-coarsen-not-identity", f"shape {shape} levels {lv}", replay)
             # model correspondence: one level up and one level down (the model is per level; odd extents included - same branch as the code)
@@ -208,9 +267,9 @@ def run(ctx):
                 for mode in ("sum", "average"):
                     n_red += 1
                     ctx.count(("reduce", dim, shape, a, mode, trailing))
-                    rn = call(d.reduce_axis, img, a, mode=mode)
-                    ri = call(d.reduce_axis, img, p, mode=mode)
                     replay = {"op": "reduce", "dim": dim, "shape": shape, "axis": a, "mode": mode, "values": arr.ravel().tolist(), "trailing": trailing, "dims": dims, "origin": origin}
+                    rn = twice(ctx, d, f"reduce_axis(dim={dim})", [img], lambda: d.reduce_axis(img, a, mode=mode), replay)
+                    ri = twice(ctx, d, f"reduce_axis(dim={dim})", [img], lambda: d.reduce_axis(img, p, mode=mode), replay)
                     if isinstance(rn, Raised) or isinstance(ri, Raised):
                         ctx.fail(f"C11:reduce_axis(dim={dim},mode={mode}):raises", f"{rn} / {ri}", replay)
                         continue
@@ -242,10 +301,14 @@ def run(ctx):
                         corr("reduce", f"reduce 1 {p} {flist(shape)} {flist(arr.ravel().tolist())}", rn.img, False)
             if dim == 2:
                 height, num = rng.choice([0.5, 0.75, 2.0]), rng.randint(1, 4)
-                ex = call(d.extrude_along_axis, img, height, num)
+                replay = {"op": "extrude", "shape": shape, "height": height, "num": num, "values": arr.ravel().tolist(), "trailing": trailing, "dims": dims, "origin": origin}
+                ex = twice(ctx, d, "extrude_along_axis", [img], lambda: d.extrude_along_axis(img, height, num), replay)
                 n_red += 1
                 ctx.count(("extrude", shape, height, num, trailing))
-                replay = {"op": "extrude", "shape": shape, "height": height, "num": num, "values": arr.ravel().tolist(), "trailing": trailing, "dims": dims, "origin": origin}
+                # the reference values are taken from the source AFTER the calls as well (twice() has required them to be unchanged)
+                i0b, (lo0b, hi0b) = integ(d, img), box(img)
+                if isinstance(i0b, Raised) or not np.array_equal(i0b, i0) or not np.array_equal(lo0b, lo0) or not np.array_equal(hi0b, hi0):
+                    ctx.fail("C11:extrude_along_axis:source-changed-by-call", f"integral/extents of the 2-D source {i0}, {lo0}..{hi0} -> {i0b}, {lo0b}..{hi0b}", dict(replay, clause="source-unchanged"))
                 if isinstance(ex, Raised):
                     ctx.fail("C11:extrude_along_axis:raises", repr(ex), replay)
                     continue
@@ -254,7 +317,7 @@ def run(ctx):
                     ctx.fail("C11:extrude_along_axis:integral!=integral*height", f"{i1} != {height} * {i0}", replay)
                 if ex.img.shape != (num,) + arr.shape or any(not np.array_equal(ex.img[k], arr) for k in range(num)):
                     ctx.fail("C11:extrude_along_axis:data", "layers are not copies of the image", replay)
-                back = call(d.reduce_axis, ex, 0, mode="average")
+                back = twice(ctx, d, "reduce_axis(dim=3)", [ex], lambda: d.reduce_axis(ex, 0, mode="average"), replay)
                 if isinstance(back, Raised) or not np.allclose(back.img, arr, rtol=1e-15, atol=0):
                     ctx.fail("C11:extrude_along_axis:reduce(average)-not-inverse", "", replay)
                 lo1, hi1 = box(ex)
@@ -285,10 +348,11 @@ def run(ctx):
             if series:
                 kw["time"] = [0, 1]
             imgs.append(d.Image(arr, **kw))
-        res = call(d.superpose, imgs)
+        replay = {"op": "superpose", "images": [{"offset": o, "shape": s, "values": a.ravel().tolist()} for o, s, a in placed], "series": series, "dtype": dtype.__name__}
+        tot_before = sum(integ(d, im) for im in imgs)
+        res = twice(ctx, d, f"superpose({'shared' if shared else 'offset'}-grid)", imgs, lambda: d.superpose(imgs), replay)
         n_sup += 1
         ctx.count(("superpose", k, shared, series, tuple((o, s) for o, s, _ in placed)), nontrivial=k > 1)
-        replay = {"op": "superpose", "images": [{"offset": o, "shape": s, "values": a.ravel().tolist()} for o, s, a in placed], "series": series, "dtype": dtype.__name__}
         if isinstance(res, Raised):
             ctx.fail(f"C11:superpose({'shared' if shared else 'offset'}-grid):raises", repr(res), replay)
             continue
@@ -303,7 +367,7 @@ def run(ctx):
             ctx.fail(f"C11:superpose({'shared' if shared else 'offset'}-grid):!=sum-of-placed-arrays", f"{k} images, canvas {exp.shape}, got shape {res.img.shape}", replay)
         tot = sum(integ(d, im) for im in imgs)
         i1 = integ(d, res)
-        if isinstance(i1, Raised) or not np.allclose(i1, tot, rtol=1e-13, atol=1e-13):
+        if isinstance(i1, Raised) or not np.allclose(i1, tot, rtol=1e-13, atol=1e-13) or not np.array_equal(tot, tot_before):
             ctx.fail(f"C11:superpose({'shared' if shared else 'offset'}-grid):integral", f"{i1} != {tot}", replay)
         if not series and res.img.shape == exp.shape:
             line = f"superpose 2 {R} {C} {k} " + " ".join(f"2 {o[0] - r0} {o[1] - c0} 2 {s[0]} {s[1]} {flist(a.ravel().tolist())}" for o, s, a in placed)
